@@ -90,7 +90,9 @@ func splitNodes(nodes []node) [][]node {
 			o = i + 1
 		}
 	}
-	if o < len(nodes) {
+	if o < len(nodes) || o > 0 {
+		// (also after a trailing divider: an empty last group, so that "{% else %}" with nothing
+		// behind it is an empty else branch and not a stray node of the first group)
 		split = append(split, nodes[o:])
 	}
 	return split
